@@ -13,26 +13,30 @@ import (
 
 // Profile steers the run-stream generator towards what one property talks about.
 type Profile struct {
-	Name       string
-	MaxNodes   int
-	Weights    map[string]int // statement kinds: line opts if set declare jump cmd call stop
-	ExprDepth  int
-	Faults     int // chance in 16 that an expression position receives a faulty expression
-	Random     bool
-	Numeric    bool
-	Markup     bool // markup in line texts
-	Multibyte  bool
-	Escapes    bool
-	Tags       bool
-	Ops        int // number of operations
-	SnapOps    int // chance in 16 of snapshot / restore operations
-	Runners    int
-	HostWrites int // chance in 16
-	Ctl        bool
-	PostEnd    int // extra next calls after an end
-	Layout     func(r *prng.R) *ast.Layout
-	Untracked  bool
-	ManyCmds   bool
+	Name        string
+	MaxNodes    int
+	Weights     map[string]int // statement kinds: line opts if set declare jump cmd call stop
+	ExprDepth   int
+	Faults      int // chance in 16 that an expression position receives a faulty expression
+	Random      bool
+	Numeric     bool
+	Markup      bool // markup in line texts
+	Multibyte   bool
+	Escapes     bool
+	Tags        bool
+	Ops         int // number of operations
+	SnapOps     int // chance in 16 of snapshot / restore operations
+	Runners     int
+	HostWrites  int // chance in 16
+	Ctl         bool
+	PostEnd     int // extra next calls after an end
+	Layout      func(r *prng.R) *ast.Layout
+	Untracked   bool
+	ManyCmds    bool
+	RandomHeavy bool
+	Visits      bool
+	IllTyped    bool
+	NumberForms bool
 }
 
 type G struct {
@@ -487,4 +491,49 @@ var Profiles = map[string]*Profile{
 	// biased to reach an end: short bodies, many stops, few jumps; the trailing next calls probe the ended state
 	"end": {Name: "end", MaxNodes: 2, Weights: map[string]int{"line": 6, "opts": 4, "if": 3, "set": 3, "declare": 1, "jump": 1, "cmd": 2, "call": 2, "stop": 3},
 		ExprDepth: 1, Faults: 0, Ops: 24, HostWrites: 1},
+	// assignments of every operator over every pair of types, interleaved with host writes
+	"vars": {Name: "vars", MaxNodes: 2, Weights: map[string]int{"line": 4, "opts": 1, "if": 1, "set": 12, "declare": 3, "jump": 1, "cmd": 0, "call": 1, "stop": 0},
+		ExprDepth: 2, Faults: 2, Ops: 26, HostWrites: 4, Numeric: true},
+	// every statement position may hold a faulty expression; out-of-domain arguments
+	"faults": {Name: "faults", MaxNodes: 3, Weights: baseWeights, ExprDepth: 2, Faults: 8, Ops: 30, Numeric: true, Random: true},
+	// snapshots and restores into several runners of the same script
+	"snap": {Name: "snap", MaxNodes: 4, Weights: map[string]int{"line": 8, "opts": 3, "if": 2, "set": 5, "declare": 1, "jump": 4, "cmd": 2, "call": 1, "stop": 1},
+		ExprDepth: 1, Faults: 0, Ops: 40, SnapOps: 5, Runners: 3, HostWrites: 1, Ctl: true, Untracked: true},
+	// random built-ins in lines, conditions and assignments
+	"rand": {Name: "rand", MaxNodes: 3, Weights: baseWeights, ExprDepth: 2, Faults: 0, Ops: 30, Random: true, RandomHeavy: true},
+	// commands with controlled completion
+	"cmds": {Name: "cmds", MaxNodes: 2, Weights: map[string]int{"line": 6, "opts": 1, "if": 1, "set": 2, "declare": 0, "jump": 1, "cmd": 8, "call": 1, "stop": 1},
+		ExprDepth: 1, Faults: 0, Ops: 36, Ctl: true, SnapOps: 1},
+	// jump graphs with tracked and untracked nodes; visit counters rendered in lines
+	"visits": {Name: "visits", MaxNodes: 4, Weights: map[string]int{"line": 6, "opts": 3, "if": 2, "set": 1, "declare": 0, "jump": 7, "cmd": 0, "call": 0, "stop": 0},
+		ExprDepth: 1, Faults: 1, Ops: 40, Untracked: true, SnapOps: 2, Runners: 2, Visits: true},
+	// deep expressions of every type with probes
+	"expr": {Name: "expr", MaxNodes: 1, Weights: map[string]int{"line": 10, "opts": 0, "if": 2, "set": 3, "declare": 0, "jump": 0, "cmd": 0, "call": 3, "stop": 0},
+		ExprDepth: 5, Faults: 2, Ops: 14, Numeric: true, IllTyped: true},
+	// line texts with escapes, multi-byte characters, tags, option conditions
+	"lines": {Name: "lines", MaxNodes: 2, Weights: map[string]int{"line": 10, "opts": 5, "if": 1, "set": 2, "declare": 0, "jump": 1, "cmd": 0, "call": 0, "stop": 0},
+		ExprDepth: 2, Faults: 0, Ops: 24, Multibyte: true, Escapes: true, Tags: true, Numeric: true, NumberForms: true},
+	// the same as flow, rendered in random layouts (indent unit, noise lines, line ends, spellings, parentheses, spacing)
+	"layout": {Name: "layout", MaxNodes: 4, Weights: baseWeights, ExprDepth: 3, Faults: 0, Ops: 24, Untracked: true, Tags: true, Layout: RandomLayout},
+	// markup in lines shown after different prefixes
+	"markuprun": {Name: "markuprun", MaxNodes: 2, Weights: map[string]int{"line": 12, "opts": 3, "if": 1, "set": 1, "declare": 0, "jump": 2, "cmd": 0, "call": 0, "stop": 0},
+		ExprDepth: 1, Faults: 0, Ops: 30, Markup: true, Multibyte: true},
+}
+
+// RandomLayout draws a layout: indent unit 1-8 spaces or 1-2 tabs, line ends, noise lines, spellings, parentheses, spacing.
+func RandomLayout(r *prng.R) *ast.Layout {
+	l := &ast.Layout{R: r.Fork(), IfIndent: r.Intn(2) == 0}
+	if r.Intn(3) == 0 {
+		l.Unit = strings.Repeat("\t", 1+r.Intn(2))
+	} else {
+		l.Unit = strings.Repeat(" ", 1+r.Intn(8))
+	}
+	l.EOL = r.Pick("\n", "\n", "\r\n", "\r")
+	l.Noise = r.Intn(5)
+	l.Trailing = r.Intn(4)
+	l.Spell = r.Intn(2) == 0
+	l.Parens = r.Intn(3)
+	l.CmdSpaces = r.Intn(2) == 0
+	l.HeaderSpace = r.Intn(2) == 0
+	return l
 }
